@@ -198,7 +198,12 @@ def run_sweep(T, tier, seed, optsets, name='core'):
             # C07_switch_generated_parser (sn); for isn only the Eval-level swOK
             key = {'s': 'switchSafe', 'is': 'inlineSwitchSafe', 'sn': 'noastSwitchSafe', 'isn': 'inlineNoastSwitchSafe'}.get(r['opts'])
             safe = bool(h.get(key)) if (key and key in h) else None
-            if key and key in h:
+            # the summary hypothesis (all_options_same_verdict; the -noast cases with the kit Kacts, which admits state-change
+            # statements) supersedes the per-option one where the driver printed it
+            if 'theoremApplies' in h:
+                key, safe = 'theoremApplies', bool(h['theoremApplies'])
+                h = dict(h, theoremApplies_key=True)
+            if key and (key in h):
                 sh.setdefault('by_opts', {}).setdefault(r['opts'], {'programs': 0, 'rewritten': 0, 'safe': 0, 'rewritten_and_safe': 0})
                 b = sh['by_opts'][r['opts']]
                 b['programs'] += 1
@@ -210,6 +215,12 @@ def run_sweep(T, tier, seed, optsets, name='core'):
             # the theorem's hypotheses on the ORIGINAL grammar (default parser side; the -noast fragment for sn): where they fail
             # the program is outside the theorem with or without -switch
             base_ok = all(h.get(k) for k in ('wfb', 'grammarOK', 'linkedOK', 'plain')) and (h.get('grammarOKN') is not False)
+            if h.get('theoremApplies_key'):
+                # the same grammar WITHOUT -switch: is it inside its theorem's fragment at all?
+                o0 = r['opts'].replace('s', '')
+                h0 = (model.get('%s_%s' % (r['id'].rsplit('_', 1)[0], o0 or 'd')) or {}).get('hyps') or {}
+                if 'theoremApplies' in h0:
+                    base_ok = bool(h0['theoremApplies'])
             if key and key in h:
                 b['base_ok'] = b.get('base_ok', 0) + (1 if base_ok else 0)
                 b['base_ok_and_safe'] = b.get('base_ok_and_safe', 0) + (1 if base_ok and safe else 0)
